@@ -151,11 +151,19 @@ mod phases {
             match message {
                 Message::Request(request) => {
                     // Answer all incoming requests with an error
+                    let is_initialize = request.method.as_str() == Initialize::METHOD;
                     let (_, response) = request.split();
-                    let response = response.into_error_response(ResponseError::new(
-                        ErrorCode::ServerNotInitialized,
-                        "Server not initialized".to_string(),
-                    ));
+                    let response = response.into_error_response(if is_initialize {
+                        ResponseError::new(
+                            ErrorCode::InvalidRequest,
+                            "Initialize method shall only be send once".to_string(),
+                        )
+                    } else {
+                        ResponseError::new(
+                            ErrorCode::ServerNotInitialized,
+                            "Server not initialized".to_string(),
+                        )
+                    });
                     iotx.send(Message::Response(response)).await?;
                 }
                 Message::Notification(notification) => match notification.method.as_str() {
